@@ -112,7 +112,7 @@ const (
 
 var fNames = []string{"watch-id", "watch-kind", "watch-kind-agg"}
 
-func start(ctx context.Context, st state.State, f int, name string, bm state.Bookmark, tail int, bootstrap bool) *collector {
+func start(ctx context.Context, st state.State, f int, name string, bm state.Bookmark, tail int, bootstrap bool, bootBookmark ...bool) *collector {
 	c := &collector{name: name}
 	ch, ach := make(chan state.Event), make(chan []state.Event)
 	switch f {
@@ -135,6 +135,9 @@ func start(ctx context.Context, st state.State, f int, name string, bm state.Boo
 		}
 		if bootstrap {
 			o = append(o, state.WithBootstrapContents(true))
+		}
+		if len(bootBookmark) > 0 && bootBookmark[0] {
+			o = append(o, state.WithBootstrapBookmark(true))
 		}
 		if f == fKind {
 			c.err = st.WatchKind(ctx, hx.IntKind(), ch, o...)
@@ -307,15 +310,19 @@ func runCase(x *explore.X, cfg ringCfg, w, further int) int {
 		}
 		// tails
 		type tailProbe struct {
-			c *collector
-			f int
-			n int
+			c  *collector
+			f  int
+			n  int
+			bb bool // with WithBootstrapBookmark: a leading Noop whose bookmark is the position before the replay
 		}
 		var tails []*tailProbe
 		if further <= 1 {
 			for f := range fNames {
 				for t := 1; t <= curCap+2; t++ {
 					tails = append(tails, &tailProbe{f: f, n: t, c: start(ctx, st, f, "tail", nil, t, false)})
+					if f != fID {
+						tails = append(tails, &tailProbe{f: f, n: t, bb: true, c: start(ctx, st, f, "tail+bootstrap-bookmark", nil, t, false, true)})
+					}
 				}
 			}
 		}
@@ -379,6 +386,18 @@ func runCase(x *explore.X, cfg ringCfg, w, further int) int {
 				k = len(window)
 			}
 			want := append(append([]wx.Ev{}, window[len(window)-k:]...), expectedFrom(tp.f, commits, n)...)
+			if tp.bb {
+				// the leading Noop carries the position right before the first replayed event: resuming from it
+				// must give exactly what followed it here
+				if len(tp.c.got) == 0 || tp.c.got[0].e.Type != "Noop" || tp.c.got[0].bm == nil {
+					fail("c12/tail-bootstrap-bookmark", "tail %d with bootstrap bookmark on %s: the stream does not start with a bookmark-only event: %v", tp.n, fNames[tp.f], tp.c.evs())
+					continue
+				}
+				if got, wantPos := posOf(tp.c.got[0].bm), int64(n-k)-1; got != wantPos {
+					fail("c12/tail-bootstrap-bookmark", "tail %d with bootstrap bookmark on %s (log length %d): the initial bookmark is position %d, the replay starts at %d, so it must be %d (a client resuming from it would skip or repeat the replayed events)", tp.n, fNames[tp.f], n, got, n-k, wantPos)
+				}
+				want = append([]wx.Ev{{Type: "Noop"}}, want...)
+			}
 			if got := tp.c.evs(); !evEqual(got, want) || tp.c.errored {
 				fail("c12/tail", "tail %d on %s (log length %d, capacity %d, gap %d): delivered %v (errored=%v), expected exactly %v", tp.n, fNames[tp.f], n, curCap, cfg.gap, got, tp.c.errored, want)
 			}
